@@ -117,6 +117,8 @@ type pathState struct {
 	taken    []Decision
 	pc       []*Term
 	pcSent   int
+	pcSeen   map[*Term]bool
+	pcLits   map[*Term]bool
 	declSent int
 	events   []ReplayEvent
 	steps    int64
@@ -154,6 +156,35 @@ func (ps *pathState) addPC(t *Term) {
 		return
 	}
 	ps.pc = append(ps.pc, t)
+	ps.markVars(t)
+	if ps.pcLits == nil {
+		ps.pcLits = map[*Term]bool{}
+	}
+	ps.pcLits[t] = true
+}
+
+// markVars records the variables mentioned by the path condition.
+func (ps *pathState) markVars(t *Term) {
+	if ps.pcSeen == nil {
+		ps.pcSeen = map[*Term]bool{}
+	}
+	if ps.pcSeen[t] {
+		return
+	}
+	ps.pcSeen[t] = true
+	for _, a := range t.Args {
+		ps.markVars(a)
+	}
+}
+
+// freeBoolVar reports whether c is a boolean variable (or its negation) that
+// the path condition does not mention: both outcomes are then feasible.
+func (ps *pathState) freeBoolVar(c *Term) bool {
+	v := c
+	if v.Op == OpNot {
+		v = v.Args[0]
+	}
+	return v.Op == OpVar && v.Sort.K == SBool && !ps.pcSeen[v]
 }
 
 func (ps *pathState) flushPC() {
@@ -220,6 +251,23 @@ func (i *interpreter) branch(c *Term, why string) bool {
 		return d.Val == 1
 	}
 	ps.tooDeep()
+	if ps.pcLits[c] {
+		// the path condition contains this very literal
+		ps.taken = append(ps.taken, Decision{Kind: DBranch, Val: 1, Forced: true})
+		return true
+	}
+	if ps.pcLits[ps.st.Not(c)] {
+		ps.taken = append(ps.taken, Decision{Kind: DBranch, Val: 0, Forced: true})
+		return false
+	}
+	if ps.freeBoolVar(c) {
+		// an unconstrained boolean input: fork without consulting the solver
+		alt := append(append([]Decision{}, ps.taken...), Decision{Kind: DBranch, Val: 0})
+		ps.ex.push(alt)
+		ps.taken = append(ps.taken, Decision{Kind: DBranch, Val: 1})
+		ps.addPC(c)
+		return true
+	}
 	rT := ps.checkWith(c)
 	if rT == Unknown {
 		panic(pathEnd{kind: endInconclusive, reason: "solver returned unknown on a branch feasibility query"})
